@@ -109,7 +109,7 @@ Sat(s) == LET w == Witness(s) IN IsSome(w) /\ Conforms(s, Get(w))
 Unrelated == { VNone, VBool(TRUE), VInt(0), VInt(7), VFloat(0), VStr(<<>>), VStr(<<122>>),
                VBytes(<<>>), VList(<<>>), VDict(<<>>), VUuid(4, 0), VDatetime(0), VDate(0) }
 
-Zoo == { VInf, VNegInf, VNan, VFloat(200000), VInt(2000), VInt(-2000), VUuid(1, 0),
+Zoo == { VInf, VNegInf, VNan, VFloat(200000), VInt(2000), VInt(-2000), VInt(3000), VUuid(1, 0),
          VObj("tuple0", <<>>, NoneOpt), VObj("tuple12", <<>>, NoneOpt), VObj("set1", <<>>, NoneOpt),
          VObj("frozenset1", <<>>, NoneOpt), VObj("bytearray_ab", <<>>, NoneOpt),
          VObj("Decimal1", <<>>, NoneOpt), VObj("Fraction12", <<>>, NoneOpt),
